@@ -357,7 +357,7 @@ def run_node(pid, tier, seed):
                         "compaction and snapshot installation are included)" % (abs_cov["abs_histories"], abs_cov["abs_events"]))
     cov.update(cfg_cov)
     if cfg_cov:
-        cov["rule"] += ("; abstract tie under membership changes: %d whole-cluster histories (%d events; no crashes, no snapshots) of the real nodes "
+        cov["rule"] += ("; abstract tie under membership changes: %d whole-cluster histories (%d events; with crashes and restarts, without snapshots) of the real nodes "
                         "were checked by Abs/CfgExec.v to be runs of the abstract protocol with membership changes in the log (Abs/CfgRaft.v) that the "
                         "theorems of Props/C08_abs.v are proved about" % (cfg_cov["cfg_histories"], cfg_cov["cfg_events"]))
     return {"violations": out, "coverage": cov, "tie_broken": broken}
@@ -381,7 +381,7 @@ reg_node("C01", "Theorems: election safety for every reachable state of the abst
          "vote per (term, voter), every elected node has a majority of recorded votes; two majorities meet. Tie: the node model's vote handlers "
          "(on_vote_request, start_election, on_vote_result, restart) are compared event by event with the real handlers; monitor: two nodes "
          "leader in one term on the simulated cluster.",
-         ["Abs/Votes.v and Abs/Raft.v have a static voter set; election safety under membership changes is cfg_election_safety (Props/C08_abs.v, model Abs/CfgRaft.v without crash/snapshot steps)"],
+         ["Abs/Votes.v and Abs/Raft.v have a static voter set; election safety under membership changes is cfg_election_safety (Props/C08_abs.v, model Abs/CfgRaft.v: membership changes, flush, crash; no snapshots)"],
          extra_props=["AbsTie.v", "C20.v", "C08_abs.v", "CfgTie.v"])
 
 
@@ -479,8 +479,9 @@ reg_node("C08", "Theorems: every configuration derived by one action is adjacent
          "canChangeConfig holds (incl. own-term commit: the pre-repair guard is refuted); followers adopt the newest configuration entry. "
          "Cluster level (Props/C08_abs.v on Abs/CfgRaft.v): election safety, log matching, leader completeness, state-machine safety in every "
          "reachable state of the protocol with single-voter membership changes in the log; the variant without the own-term-commit guard is refuted. "
-         "The abstract reconfiguration protocol has no crash/snapshot steps and is linked to the code by the node-level guard theorems plus the "
-         "per-event correspondence (no history checker for membership-changing runs).",
+         "Abs/CfgRaft.v also has the durable prefix, flushing and crash/restart (cfg_commit_le_flushed, cfg_committed_survives_crash) but no snapshots; "
+         "it is tied to the code by the node-level guard theorems plus the per-event correspondence and by the history checker Abs/CfgExec.v "
+         "(membership-changing histories with crashes observed on the real nodes must be runs of it).",
          ["NoDup node ids; requests carry consecutive entries"], extra_props=["C08_abs.v", "CfgTie.v"])
 
 
@@ -543,7 +544,7 @@ reg_node("C02", "Theorems: (abstract protocol, Props/C02.v when present) leader 
          "interleaving; (node level, Props/C02_rules.v) a vote is newly cast only for an at-least-as-up-to-date log, a follower truncates only "
          "from the first conflicting index, holds every request entry as sent, the follower commit index moves only to covered current-term "
          "entries, a leader's log is append-only. Monitors: committed entries never differ between nodes, every leader holds all committed entries.",
-         ["Abs/Raft.v (crash, flush, snapshots) has a static voter set; Abs/CfgRaft.v (membership changes in the log, Props/C08_abs.v) has no crash or snapshot step"], extra_props=["C02_rules.v", "AbsTie.v", "C08_abs.v", "CfgTie.v"])
+         ["Abs/Raft.v (crash, flush, snapshots) has a static voter set; Abs/CfgRaft.v (membership changes in the log, durable prefix, crash/restart; Props/C08_abs.v) has no snapshot step"], extra_props=["C02_rules.v", "AbsTie.v", "C08_abs.v", "CfgTie.v"])
 reg_node("C03", "Theorems: (abstract protocol, Props/C03.v when present) committed prefixes of any two nodes are prefix-related; (node level) the "
          "state machine is fed the entries after its position up to the commit index contiguously, in order, once (apply_is_contiguous, "
          "queue_applied_in_order). Monitor: state-machine command lists of all nodes are pairwise prefix-related after every event.",
